@@ -168,6 +168,13 @@ func c14Lookalikes() []string {
 					add(k[:i] + string([]byte{b[i+1], b[i]}) + k[i+2:])
 				}
 			}
+			for i := 1; i < len(b); i++ {
+				add(k[:i] + k + k[i:])   // the keyword nested in itself (what a strip-once filter leaves behind)
+				add(k[:i] + "_" + k[i:]) // an underscore inside the keyword
+				add(k[:i] + "0" + k[i:]) // a digit inside the keyword
+			}
+			add(k + k)
+			add(k + "_" + k)
 			for _, sfx := range []string{"s", "ed", "ing", "er", "_id", "Id", "1", "2", "_", "x"} {
 				add(k + sfx)
 			}
@@ -375,7 +382,7 @@ func c14Instantiate(shape string, r *core.Rng, words []string) string {
 func c14() *core.Check {
 	return &core.Check{
 		ID: "C14",
-		Rule: "G_benign against the LIVE keyword table: word = [A-Za-z_][A-Za-z0-9_]* from a frozen list (4000 English words in three capitalisations + identifier shapes of length 1-40), also behind 28 identifier prefixes (sp_, xp_, pg_, is_, ... one family per sequence) and mixed with marker-like words (sp_password, near-keywords) that is not a key, component or dotted prefix of a key; number = [0-9]+ incl. 31/32/33-digit runs; (1) the token-class abstraction exhaustively: all 62 sequences over {n,1} of length 1-5 must be absent from the live blacklist; (2) every sequence shape over {word,number} up to length 7 joined by single spaces, 64 (thorough 16384) random instantiations each; (3) e-mail / decimal / sentence shapes incl. apostrophes, near-keyword words (one letter glued to a keyword) and random identifiers (those not dropped by the one-time calibration), sampled; (4) 24 M (thorough 300 M) inputs built from distinct random identifiers between numbers; (5) ~30 000 keyword look-alikes (digits for look-alike letters, one letter dropped / doubled / swapped, common suffixes; those that are not table words) in six frames; (6) one identifier of 2^k+d letters (k up to 16, d = -34..34, also 65568+d) whose tail spells a keyword; multi-word keys glued into one identifier; base64 / hex spellings of injection strings; (7) benign bodies of 128 KiB-16 MiB (thorough 256 MiB); (8) long benign texts whose first and last 2^k bytes would join into a keyword; (9) the letters of every two-word table phrase split at another place, asked right after the phrase itself; sentences in which one word ends with and the next begins with the two keywords of an attack phrase; the parts of every underscore-spelt table key as separate words (\"uni on\"); ~250 words of SQL grammars that are not table words, in ordered pairs around numbers (\"page first 10 rows 25\"); every eighth input is also asked through a zero-copy view of a recycled buffer that held an equally long attack one call earlier. Oracle: IsSQLi = (false,\"\"). " +
+		Rule: "G_benign against the LIVE keyword table: word = [A-Za-z_][A-Za-z0-9_]* from a frozen list (4000 English words in three capitalisations + identifier shapes of length 1-40), also behind 28 identifier prefixes (sp_, xp_, pg_, is_, ... one family per sequence) and mixed with marker-like words (sp_password, near-keywords) that is not a key, component or dotted prefix of a key; number = [0-9]+ incl. 31/32/33-digit runs; (1) the token-class abstraction exhaustively: all 62 sequences over {n,1} of length 1-5 must be absent from the live blacklist; (2) every sequence shape over {word,number} up to length 7 joined by single spaces, 64 (thorough 16384) random instantiations each; (3) e-mail / decimal / sentence shapes incl. apostrophes, near-keyword words (one letter glued to a keyword) and random identifiers (those not dropped by the one-time calibration), sampled; (4) 24 M (thorough 300 M) inputs built from distinct random identifiers between numbers; (5) ~30 000 keyword look-alikes (digits for look-alike letters, one letter dropped / doubled / swapped, common suffixes; those that are not table words) in six frames; (6) one identifier of 2^k+d letters (k up to 16, d = -34..34, also 65568+d) whose tail spells a keyword; multi-word keys glued into one identifier; base64 / hex spellings of injection strings; (7) benign bodies of 128 KiB-16 MiB (thorough 256 MiB); (8) long benign texts whose first and last 2^k bytes would join into a keyword; (9) the letters of every two-word table phrase split at another place, asked right after the phrase itself; sentences in which one word ends with and the next begins with the two keywords of an attack phrase; attacks written as decimal / octal character-code lists (numbers only); every keyword nested in itself, with an underscore or digit inside, doubled; the parts of every underscore-spelt table key as separate words (\"uni on\"); ~250 words of SQL grammars that are not table words, in ordered pairs around numbers (\"page first 10 rows 25\"); every eighth input is also asked through a zero-copy view of a recycled buffer that held an equally long attack one call earlier. Oracle: IsSQLi = (false,\"\"). " +
 			"Non-trivial = every instance; distinct by string. The per-context fingerprints are recorded to show that the n/1 abstraction is what the implementation produced.",
 		Exhaustive: false,
 		Plan: func(tier string, seed uint64) []core.Unit {
@@ -401,6 +408,7 @@ func c14() *core.Check {
 			us = append(us, core.Unit{Gen: "embedded", Lo: 0, Hi: 1})
 			us = append(us, core.Unit{Gen: "resplit", Lo: 0, Hi: 1})
 			us = append(us, core.Unit{Gen: "unsplit", Lo: 0, Hi: 1})
+			us = append(us, core.Unit{Gen: "charcodes", Lo: 0, Hi: 1})
 			us = append(us, gen.RangeUnits("sqlish", uint64(len(c14SQLish)), 8, "")...)
 			return us
 		},
@@ -511,6 +519,23 @@ func c14() *core.Check {
 						}
 						for _, f := range []string{"5 %s %s 7", "%s %s 3", "1 %s %s", "items %s %s 3"} {
 							emit(core.Case{In: fmt.Sprintf(f, w1, w2), Kind: "resplit", S: low})
+						}
+					}
+				}
+			case "charcodes":
+				// attacks written as lists of character codes: numbers only
+				atks := append([]string{"1 or 1=1", "1 union select 2", "' or 'a'='a", "1;drop table t", "1 or 1=1 -- "}, c14Attacks...)
+				for _, a := range atks {
+					for _, sep := range []string{" ", "  ", ", ", ","} {
+						for _, base := range []int{10, 8} {
+							var parts []string
+							for i := 0; i < len(a); i++ {
+								parts = append(parts, strconv.FormatInt(int64(a[i]), base))
+							}
+							for cut := len(parts); cut >= 7; cut -= 3 {
+								emit(core.Case{In: strings.Join(parts[:cut], sep), Kind: "charcodes"})
+							}
+							emit(core.Case{In: "codes " + strings.Join(parts, sep), Kind: "charcodes"})
 						}
 					}
 				}
@@ -834,7 +859,8 @@ func refDecode(s string) (int, int) {
 var c19Tags = []string{"a", "a", "a", "img", "set", "animate", "form", "button", "input", "area", "video", "source", "x", "td", "use", "image", "body", "q", "blockquote", "feimage"}
 
 var c19Companions = []string{"attributeName=fill", "attributename=opacity", "attributeName=x", "type=image/png", "rel=noopener", "target=_blank", "download", "sandbox=''", "dur=1s", "begin=0", "id=a", "class=\"b c\"", "title='t'",
-	"role=link", "data-x=1", "content=0", "http-equiv=refresh", "integrity=x", "crossorigin", "loading=lazy", "hidden", "xml:space=preserve", "method=post", "calcMode=discrete", "fill=freeze", "repeatCount=1", "x:y=z"}
+	"role=link", "data-x=1", "content=0", "http-equiv=refresh", "integrity=x", "crossorigin", "loading=lazy", "hidden", "xml:space=preserve", "method=post", "calcMode=discrete", "fill=freeze", "repeatCount=1", "x:y=z",
+	"x/", "x /", "x//", "download/", "b=c/", "x/\t", "x\n/", "b='c'/", "x/ /", "/", "b=\"\"", "b=''"}
 
 var c19DocPrefixes = []string{"", "", "<i>x</i >", "<b></b\n>text ", "<p/>", "<p>one</p><p>two</p >", "<br/><td a=b></td c='d'>", "</>", "<img alt=>", "<b c=>t", "<i x= ><b y=''>",
 	"<p><plaintext>", "<plaintext>", "<xmp>", "<textarea>", "<title>x", "<listing>", "<select><option>", "<table><tr><td>", "<math><mi>", "<p><PlainText >", "<q cite=x>", "<template>", "<details open>"}
@@ -854,7 +880,7 @@ func c19() *core.Check {
 	schemes := []string{"javascript:", "vbscript:", "data:", "view-source:"}
 	return &core.Check{
 		ID: "C19",
-		Rule: "(recall) for every scheme in {javascript:, vbscript:, data:, view-source:}: per-byte encodings in {literal, &#D;, &#D, &#0000D;, &#xH;, &#XH, &#x00H;} exhaustively for data: and the java prefix (8^5, 8^4) and sampled for the longer schemes, x leading junk (bytes <= 0x20, >= 0x7f, entity-encoded white space) x NUL/LF between scheme letters (also runs of 1-65537 ignorable characters / bytes at every position and as leading junk, with every length in 1020-1025, 4095-4097 and 65535-65537) x case masks; oracle: the URL predicate is true, and IsXSS(<a ATTR=quote(value)>) is true for every live URL attribute (also upper-/mixed-case, with NUL runs of 1-97 bytes inside the name, and preceded by the same attribute with a harmless value; on 17 harmless element names, behind one or two of 27 harmless companion attributes such as attributeName=fill, and behind 22 ordinary markup prefixes incl. <plaintext>, <xmp>, <textarea>, <title>) x 4 quotings; unquoted values keep their leading white-space / NUL junk (the tokenizer skips it). " +
+		Rule: "(recall) for every scheme in {javascript:, vbscript:, data:, view-source:}: per-byte encodings in {literal, &#D;, &#D, &#0000D;, &#xH;, &#XH, &#x00H;} exhaustively for data: and the java prefix (8^5, 8^4) and sampled for the longer schemes, x leading junk (bytes <= 0x20, >= 0x7f, entity-encoded white space) x NUL/LF between scheme letters (also runs of 1-65537 ignorable characters / bytes at every position and as leading junk, with every length in 1020-1025, 4095-4097 and 65535-65537) x case masks; oracle: the URL predicate is true, and IsXSS(<a ATTR=quote(value)>) is true for every live URL attribute (also upper-/mixed-case, with NUL runs of 1-97 bytes inside the name, and preceded by the same attribute with a harmless value; on 17 harmless element names, behind one or two of 27 harmless companion attributes such as attributeName=fill, and behind 22 ordinary markup prefixes incl. <plaintext>, <xmp>, <textarea>, <title>; three cases in eight as injected text: behind a closing quote that is the first byte, behind x\" and inside an unquoted value) x 4 quotings; unquoted values keep their leading white-space / NUL junk (the tokenizer skips it). " +
 			"(decoder) every string over {& # x X ; 0 1 9 a f F g NUL 0xff} up to length 6 (thorough 7) plus boundary values around 0x1000FF in decimal and hex with 0-8 leading zeros and every tail, values that are small again modulo 2^31 ... 2^128 (wrap-around), and all 256 byte values in every position of a reference: (value, consumed) must equal the decoder specification, 1 <= consumed <= |s|. Non-trivial = decoder inputs starting with '&#' and all recall cases; distinct by input.",
 		Plan: func(tier string, seed uint64) []core.Unit {
 			L := 6
@@ -1089,9 +1115,30 @@ func c19() *core.Check {
 				// attributes: each occurrence is judged on its own)
 				doc = "<" + tag + " " + strings.ToLower(strings.ReplaceAll(a, "\x00", "")) + "=/home " + comp + a + "=" + q + val + q + ">"
 			}
+			// the same attribute as injected text: behind the closing quote of the
+			// value it lands in (as the very first byte, or after some text), or inside
+			// an unquoted value
+			if k := hx >> 32 % 8; k >= 5 {
+				lowa := strings.ToLower(strings.ReplaceAll(a, "\x00", ""))
+				q0 := []string{"'", "\"", "`"}[hx>>36%3]
+				switch k {
+				case 5:
+					doc = q0 + a + "=" + q + val + q + " "
+				case 6:
+					doc = "x" + q0 + " " + comp + a + "=" + q + val + q + ">"
+				default:
+					doc = "x " + comp + lowa + "=" + q + val + q + " y"
+				}
+				if q == q0 && k != 7 {
+					// the value's own quote would pair up with the breakout quote
+					doc = "<" + tag + " " + a + "=" + q + val + q + ">"
+				}
+			}
 			// ordinary markup in front of the tag (the verdict must come from the
 			// URL value: nothing in these prefixes is black)
-			doc = c19DocPrefixes[int(c.A/11)%len(c19DocPrefixes)] + doc
+			if strings.HasPrefix(doc, "<") {
+				doc = c19DocPrefixes[int(c.A/11)%len(c19DocPrefixes)] + doc
+			}
 			if !li.IsXSS(doc) {
 				w.Violate("scheme-not-recognised", fmt.Sprintf("IsXSS(%q) = false although the value decodes to a script-capable scheme\n%s", trunc(doc, 200), explainXSS(doc)))
 				return
